@@ -153,13 +153,15 @@ struct ReqSpec {
 	hosts: Vec<Vec<u8>>,
 	/// request target
 	uri: String,
+	/// protocol version the request claims: 0 = HTTP/1.1 (default), 1 = HTTP/1.0, 2 = HTTP/0.9, 3 = HTTP/2, 4 = HTTP/3
+	version: u8,
 }
 
 impl ReqSpec {
 	fn to_json(&self) -> Value {
 		let hs: Vec<Value> =
 			self.hosts.iter().map(|h| json!({"lossy": String::from_utf8_lossy(h), "bytes": h})).collect();
-		json!({"host_headers": hs, "uri": self.uri})
+		json!({"host_headers": hs, "uri": self.uri, "version": self.version})
 	}
 	fn from_json(v: &Value) -> ReqSpec {
 		let hosts = v["host_headers"]
@@ -170,7 +172,7 @@ impl ReqSpec {
 					.collect()
 			})
 			.unwrap_or_default();
-		ReqSpec { hosts, uri: v["uri"].as_str().unwrap_or("/").to_string() }
+		ReqSpec { hosts, uri: v["uri"].as_str().unwrap_or("/").to_string(), version: v["version"].as_u64().unwrap_or(0) as u8 }
 	}
 }
 
@@ -720,7 +722,14 @@ fn build_request(req: &ReqSpec) -> Built {
 	if uri.authority().map(|a| a.as_str()) != want {
 		return Built::UriAuthorityMismatch;
 	}
-	let mut b = http::Request::builder().method("POST").uri(uri);
+	let version = match req.version {
+		1 => http::Version::HTTP_10,
+		2 => http::Version::HTTP_09,
+		3 => http::Version::HTTP_2,
+		4 => http::Version::HTTP_3,
+		_ => http::Version::HTTP_11,
+	};
+	let mut b = http::Request::builder().method("POST").uri(uri).version(version);
 	for h in &req.hosts {
 		let Ok(v) = http::HeaderValue::from_bytes(h) else { return Built::HostUnconstructible };
 		b = b.header(http::header::HOST, v);
@@ -772,7 +781,7 @@ const LABELS: [&str; 10] = ["a", "b", "d", "example", "com", "parity", "io", "we
 const EVIL: [&str; 4] = ["evil", "attacker", "x", "zz"];
 const V4: [&str; 3] = ["127.0.0.1", "10.0.0.7", "192.168.1.1"];
 const V6: [&str; 4] = ["[::1]", "[2001:db8::1]", "[2001:db8:85a3:8d3:1319:8a2e:370:7348]", "[::ffff:1.2.3.4]"];
-const PORTS: [u32; 8] = [80, 443, 21, 8080, 9944, 1, 65535, 8443];
+const PORTS: [u32; 9] = [80, 443, 21, 8080, 9944, 1, 65535, 8443, 0];
 const SCHEMES: [(&str, u32); 5] = [("http", 80), ("https", 443), ("ws", 80), ("wss", 443), ("ftp", 21)];
 
 fn labels(r: &mut Rng, n: usize) -> String {
@@ -1090,7 +1099,15 @@ fn gen_request(r: &mut Rng, entries: &[Entry]) -> (ReqSpec, String) {
 			(String::from_utf8_lossy(&other).into_owned(), "uri-authority-form-independent")
 		}
 	};
-	(ReqSpec { hosts, uri }, format!("{tag}|{hshape}|{ushape}"))
+	// the claimed protocol version says nothing about who is addressed: the obligations are the same for each
+	let (version, vshape) = match r.below(12) {
+		0 | 1 => (1, "|http/1.0"),
+		2 => (2, "|http/0.9"),
+		3 => (3, "|h2"),
+		4 => (4, "|h3"),
+		_ => (0, ""),
+	};
+	(ReqSpec { hosts, uri, version }, format!("{tag}|{hshape}|{ushape}{vshape}"))
 }
 
 // ---------------------------------------------------------------------------------------------------------------
@@ -1260,15 +1277,17 @@ fn corner_cases(rt: &tokio::runtime::Runtime, sh: &mut Shard) {
 		};
 		for h in &hosts {
 			for uri in ["/", "http://parity.io/", "parity.io:443", "http://evil.com/"] {
-				let req = ReqSpec { hosts: vec![h.to_vec()], uri: uri.to_string() };
+				let req = ReqSpec { hosts: vec![h.to_vec()], uri: uri.to_string(), version: 0 };
 				run_one(rt, &layer, list, &req, "corner|host-single|corner-uri", sh, false);
 			}
-			let req = ReqSpec { hosts: vec![h.to_vec(), h.to_vec()], uri: "/".to_string() };
+			let req = ReqSpec { hosts: vec![h.to_vec(), h.to_vec()], uri: "/".to_string(), version: 0 };
 			run_one(rt, &layer, list, &req, "corner|host-duplicated-same|uri-origin-form", sh, false);
 		}
 		for uri in ["/", "http://parity.io/", "http://x.web3.site:1/", "[::1]:9944", "a.x.d:8080"] {
-			let req = ReqSpec { hosts: vec![], uri: uri.to_string() };
-			run_one(rt, &layer, list, &req, "corner|host-absent|corner-uri", sh, false);
+			for version in 0..5u8 {
+				let req = ReqSpec { hosts: vec![], uri: uri.to_string(), version };
+				run_one(rt, &layer, list, &req, "corner|host-absent|corner-uri", sh, false);
+			}
 		}
 	}
 }
@@ -1393,7 +1412,8 @@ fn main() {
 		if let Some(h) = ctx.arg_value("--host2") {
 			hosts.push(h.into_bytes());
 		}
-		let req = ReqSpec { hosts, uri: ctx.arg_value("--uri").unwrap_or_else(|| "/".into()) };
+		let version = ctx.arg_value("--version").and_then(|v| v.parse().ok()).unwrap_or(0);
+		let req = ReqSpec { hosts, uri: ctx.arg_value("--uri").unwrap_or_else(|| "/".into()), version };
 		let mut sh = Shard::new();
 		replay_case(&witness(&entries, &req, None), &mut sh);
 		return;
@@ -1407,7 +1427,7 @@ fn main() {
 		replay_case(
 			&witness(
 				&[Entry { text: "parity.io".into(), host: "parity.io".into(), hkind: "literal".into(), port: EPort::Unspecified, via_sockaddr: false }],
-				&ReqSpec { hosts: vec![b"parity.io".to_vec()], uri: "/".into() },
+				&ReqSpec { hosts: vec![b"parity.io".to_vec()], uri: "/".into(), version: 0 },
 				None,
 			),
 			&mut sh,
